@@ -155,6 +155,36 @@ def build_catalog():
         Bb = _tt(T, P["K"], P["R2"], P["seed"] + 1, M=_bump(N, P["k"], P["aux"]))
         return (lambda: A @ B), (lambda: A @ Bb), None
 
+    @entry("matmul:order_mismatch", True)
+    def _(T, P):
+        # one operand has an extra trailing (or leading) mode; TT rank 1 at the cut, so no later step fails by accident
+        N, M, K = P["N"], P["M"], P["K"]
+        d = len(N)
+        one = [1] * (d + 1)
+        A = _tt(T, N, P["R1"], P["seed"], M=M)
+        x = _tt(T, N, P["R2"], P["seed"] + 1)
+        xl = _tt(T, M, P["R2"], P["seed"] + 1)
+        B = _tt(T, K, P["R2"], P["seed"] + 2, M=N)
+        e = 2 + P["aux"] % 2
+        v = P["aux"] % 6
+        if v == 0:      # A @ x, x longer (trailing)
+            xb = _tt(T, N + [e], P["R2"] + [1], P["seed"] + 1)
+            return (lambda: A @ x), (lambda: A @ xb), None
+        if v == 1:      # A @ x, x longer (leading)
+            xb = _tt(T, [e] + N, [1] + P["R2"], P["seed"] + 1)
+            return (lambda: A @ x), (lambda: A @ xb), None
+        if v == 2:      # x @ A, x longer
+            xb = _tt(T, M + [e], P["R2"] + [1], P["seed"] + 1)
+            return (lambda: xl @ A), (lambda: xb @ A), None
+        if v == 3:      # A @ B, B longer
+            Bb = _tt(T, K + [e], P["R2"] + [1], P["seed"] + 2, M=N + [e])
+            return (lambda: A @ B), (lambda: A @ Bb), None
+        if v == 4:      # A longer than x
+            Ab = _tt(T, N + [e], P["R1"] + [1], P["seed"], M=M + [e])
+            return (lambda: A @ x), (lambda: Ab @ x), None
+        Ab = _tt(T, N + [e], P["R1"] + [1], P["seed"], M=M + [e])      # A longer than B
+        return (lambda: A @ B), (lambda: Ab @ B), None
+
     @entry("matmul:dense_trailing_mismatch", True)
     def _(T, P):
         N = [max(n, 2) for n in P["N"]]
